@@ -21,7 +21,7 @@ class C17(SimpleProperty):
             "with known canonical prefixes, synonyms and unknown prefixes, identifiers of 1-3 non-empty URL-path-safe "
             "segments joined by '/', optionally containing the delimiter once or twice (never the dot segments). Status "
             "and Location of both frameworks are compared with each other, with the model of the two route patterns, "
-            "and with expand of the real converter. Non-trivial = the identifier contains '/' or the delimiter. With delimiter ':' identifiers may end in the delimiter or double it inside a segment; when the converter is extended after the apps were built, every request is issued once before the extension as well.")
+            "and with expand of the real converter. Non-trivial = the identifier contains '/' or the delimiter. With delimiter ':' identifiers may end in the delimiter or double it inside a segment; when the converter is extended after the apps were built, every request is issued once before the extension as well. 30 % of the cases first build resolver apps for a second converter (same names, other URI prefixes, same or other delimiter) that answer the same requests; in 20 % the served converter and a deep copy / pickle copy of it part ways and the other one learns names that must stay unknown (422); '/'-delimited converters also receive unknown prefixes containing ':'.")
     assumptions = ["Werkzeug / Starlette route matching for the two route templates is modelled (greedy slash-free first "
                    "group, `path` second group) and validated on every case; percent-encoding is outside the model: requests "
                    "use URL-path-safe characters only, as the property's quantifier does"]
@@ -40,7 +40,7 @@ class C17(SimpleProperty):
         known = [uncps(r["p"]) for r in recs] + [uncps(x) for r in recs for x in r["ps"]]
         paths = []
         for _ in range(8):
-            p = rng.choice(known) if rng.random() < 0.75 else rng.choice(["nope", "zz", "Doi"])
+            p = rng.choice(known) if rng.random() < 0.75 else rng.choice(["nope", "zz", "Doi"] + (["no:pe", "doi:"] if delim == "/" else []))
             segs = [rng.choice(SEG) for _ in range(rng.choice([1, 1, 2, 3]))]
             ident = "/".join(segs)
             r = rng.random()
@@ -59,6 +59,11 @@ class C17(SimpleProperty):
         # must ask the live converter
         late = rng.randint(1, len(recs) - 1) if len(recs) > 1 and rng.random() < 0.4 else 0
         case = {"records": recs, "delim": delim, "requests": paths, "late": late}
+        if rng.random() < 0.3:
+            case["decoy"] = rng.choice(["same-delimiter", "other-delimiter"])
+        if rng.random() < 0.2 and late < len(recs):
+            case["copy"] = [rng.choice(["deepcopy", "pickle"]), rng.choice(["serve-copy", "serve-original"])]
+            case["requests"] = case["requests"][:6] + [("cpnew", "1"), ("cpsyn", paths[0][1]), ("cpnewsyn", "x/y")]
         if rng.random() < 0.35:
             # a record that *acquired* a name by merge: add_prefix(<a name it has>, <another URI prefix>,
             # prefix_synonyms=[new name], merge=True); requests through the new name must expand with the record's own
@@ -77,7 +82,29 @@ class C17(SimpleProperty):
 
         recs = [common.dec_record(r) for r in case["records"]]
         late = case.get("late", 0)
+        if case.get("decoy") and len(recs) > 1:
+            # another resolver lives in the same process: the same names, each resolving somewhere else (the URI
+            # prefixes rotated over the records); it answers every request first.  Nothing it did may show below.
+            rot = [common.dec_record(dict(r, u=case["records"][(i + 1) % len(recs)]["u"], us=[]))
+                   for i, r in enumerate(case["records"])]
+            dd = case["delim"] if case["decoy"] == "same-delimiter" else ("/" if case["delim"] == ":" else ":")
+            dconv = Converter(rot, delimiter=dd)
+            dfl, dfa = get_flask_app(dconv).test_client(), TestClient(get_fastapi_app(dconv))
+            for p, i in case["requests"]:
+                dfl.get("/" + p + dd + i)
+                dfa.get("/" + p + dd + i, follow_redirects=False)
         conv = Converter(recs[: len(recs) - late], delimiter=case["delim"])
+        if case.get("copy"):
+            # the converter that is served and a deep copy / pickle round trip of it part ways: the *other* one learns a
+            # new prefix and a new synonym of an existing record; the served one must not know them (requests: 422)
+            import copy
+            import pickle
+
+            how, which = case["copy"]
+            twin = copy.deepcopy(conv) if how == "deepcopy" else pickle.loads(pickle.dumps(conv))
+            conv, other = (twin, conv) if which == "serve-copy" else (conv, twin)
+            other.add_prefix("cpnew", "https://copy.example/new/", prefix_synonyms=["cpnewsyn"])
+            other.add_prefix(recs[0].prefix, "https://copy.example/merged/", prefix_synonyms=["cpsyn"], merge=True)
         fl = get_flask_app(conv).test_client()
         fa = TestClient(get_fastapi_app(conv))
         if late:
@@ -135,6 +162,10 @@ class C17(SimpleProperty):
 
     def tags(self, case, impl):
         out = [f"delim={case['delim']!r}", "converter-extended-after-app-built" if case.get("late") else "converter-complete"]
+        if case.get("decoy"):
+            out.append("second-resolver-in-process:" + case["decoy"])
+        if case.get("copy"):
+            out.append("copy-of-the-converter-curated:" + "/".join(case["copy"]))
         for (p, i), r in zip(case["requests"], impl["flask"]):
             out.append(f"status={r[0]}")
             if "/" in i:
@@ -154,6 +185,13 @@ class C17(SimpleProperty):
         out = [f"Converter([{recs}], delimiter={case['delim']!r}); the last {case.get('late', 0)} record(s) are added with "
                f"add_record after the apps were built" + (f"; then add_prefix({case['merge']['via']!r}, {case['merge']['u']!r}, "
                f"prefix_synonyms=[{case['merge']['syn']!r}], merge=True)" if case.get("merge") else "")]
+        if case.get("copy"):
+            out.append(f"(the served converter is {'a ' + case['copy'][0] + ' copy of this one' if case['copy'][1] == 'serve-copy' else 'this one'}; "
+                       f"the {'original' if case['copy'][1] == 'serve-copy' else case['copy'][0] + ' copy'} then learnt the prefix 'cpnew' "
+                       f"(synonym 'cpnewsyn') and the synonym 'cpsyn' of {common.uncps(case['records'][0]['p'])!r})")
+        if case.get("decoy") and len(case["records"]) > 1:
+            out.insert(0, f"(first, in the same process: resolver apps for a second converter -- the same names, URI prefixes rotated, "
+                          f"{case['decoy']} -- answered the same requests)")
         for k, (p, i) in enumerate(case["requests"]):
             out.append(f"GET /{p}{case['delim']}{i} -> flask {impl['flask'][k]}, fastapi {impl['fastapi'][k]}, expand {impl['expand'][k]!r}")
         return out
